@@ -40,6 +40,7 @@ type Config struct {
 	MapOrderPerms   bool
 	SolverLog       string
 	ValidatePerCell int
+	Params          map[string]int
 
 	embedPath string
 }
@@ -175,6 +176,7 @@ type Options struct {
 	MaxDigits     int
 	MapOrderPerms bool
 	MaxSteps      int64
+	Params        map[string]int
 }
 
 func (in *Interp) SetOptions(o Options) {
@@ -184,6 +186,7 @@ func (in *Interp) SetOptions(o Options) {
 		in.cfg.MaxDigits = 10
 	}
 	in.cfg.MapOrderPerms = o.MapOrderPerms
+	in.cfg.Params = o.Params
 	if o.MaxSteps > 0 {
 		in.maxSteps = o.MaxSteps
 	} else {
@@ -284,6 +287,7 @@ type ValidationSample struct {
 	Model   map[string]int64  `json:"model"`
 	Chooses map[string]int    `json:"chooses"`
 	Notes   map[string]string `json:"notes"`
+	Params  map[string]int    `json:"params,omitempty"`
 }
 
 type CellResult struct {
@@ -323,9 +327,24 @@ func (in *Interp) RunHarness(fn *ssa.Function, prefix []int, prefixArity []int) 
 		if i < len(prefixArity) {
 			n = prefixArity[i]
 		}
-		decs = append(decs, decision{alt: a, nalts: n, forced: true})
+		decs = append(decs, decision{alt: a, nalts: n, forced: true, prefix: true})
 	}
 	checkAt := -1
+	in.onceCache = map[string]value{}
+	in.cellUndo = in.cellUndo[:0]
+	defer func() {
+		// undo the kept effects of vrt.Once computations
+		for i := len(in.cellUndo) - 1; i >= 0; i-- {
+			u := &in.cellUndo[i]
+			if u.fn != nil {
+				u.fn()
+			} else {
+				*u.addr = u.old
+			}
+		}
+		in.cellUndo = in.cellUndo[:0]
+		in.onceCache = nil
+	}()
 	for {
 		if res.Paths >= in.cfg.MaxPaths {
 			res.Inconclusive = append(res.Inconclusive, fmt.Sprintf("path budget of %d exhausted", in.cfg.MaxPaths))
@@ -496,7 +515,7 @@ func (in *Interp) validationSample(harness string) (vs *ValidationSample) {
 			mag /= 10
 		}
 	}
-	vs = &ValidationSample{Harness: harness, Model: model, Chooses: map[string]int{}, Notes: map[string]string{}}
+	vs = &ValidationSample{Harness: harness, Model: model, Chooses: map[string]int{}, Notes: map[string]string{}, Params: in.cfg.Params}
 	for k, v := range p.chooses {
 		vs.Chooses[k] = v
 	}
